@@ -1262,6 +1262,11 @@ func (e *Enc) typeOfExpr(c *Ctx, x Expr) types.Type {
 // allowedWrite returns the condition under which a write to (heapName, ref) is inside the frame.
 func (e *Enc) allowedWrite(heapName string, ref Term, idx *Term) Term {
 	conds := []Term{Term{app(">=", ref.S, "alloc@0"), sBool}}
+	if strings.HasPrefix(heapName, "E.") {
+		// the nil array has no elements: naming it in a frame permits nothing (an element write would fail its
+		// bounds obligation first)
+		conds = append(conds, tEq(ref, tInt(0)))
+	}
 	for _, m := range e.modRefs {
 		if m.heapName != heapName {
 			continue
